@@ -234,7 +234,18 @@ def run(ctx: Ctx):
     return "exploration", ("xarray_reduce is 450 lines of xarray API calls; the helper obligations proved (see obligations, if any) do not carry the main claim, which is decided by the bounded run-time contract against native xarray. " + note)
 
 
+def _case_of(payload):
+    if "case" in payload:
+        return payload["case"]
+    m = payload.get("model")
+    return m.get("case") if isinstance(m, dict) else None
+
+
 def replay(payload):
+    if _case_of(payload) is None:
+        print("REPLAY: obligation", payload.get("obligation"), "-", payload.get("formula"), "| solver:", str(payload.get("solver_output"))[:500])
+        return 1
+    payload = {**payload, "case": _case_of(payload)}
     r = check(payload["case"])
     print("REPLAY:", "contract holds" if r is None else r["why"])
     return 0 if r is None else 1
